@@ -1,5 +1,5 @@
 //! Conformance of the write-back buffer of a build (`TmpNodes` / `TmpNodesReader`, exported by
-//! hook H3) with spec/TmpNodesOps.tla: operation sequences executed on the real type, with the
+//! hook H5) with spec/TmpNodesOps.tla: operation sequences executed on the real type, with the
 //! outputs of `to_delete()` and `to_insert()` logged, one ndjson line per buffer.
 //! The harness is compiled with debug assertions, so the two `debug_assert!` of the type are live
 //! and a sequence that breaks their discipline is expected to panic (and is logged as such).
